@@ -36,7 +36,7 @@ CLAIMED["C12"] = ("Partial deductive proof: chans.Merge for arities 1-3 (arity 1
 CLAIMED["C18"] = ("Partial deductive proof of the sequential clauses: every typed xsync.Map wrapper equals the assumed sync.Map contract on every key state, verified for value types that are not interfaces and for ones that are (a stored nil interface, an absent key); Future: Fill once (panics, value untouched, on the second), Wait/WaitContext return the filled value, WaitContext returns ctx.Err() only through the Done arm; Watchable: Value returns the last Set value (zero before) with the channel of the current cell, which is open until the next Set closes exactly it.",
          "Trusted: gvc, the sequential channel and atomic.Pointer models, assumed contracts of sync.Map/atomic.Pointer/context. Not covered: every interleaving clause (Value racing the first Set, Fill racing Wait, concurrent first calls of a Lazy); Lazy is sync.OnceValue (trusted). Two genuine defects repaired by fix: commits.",
          "4.12", CLAIMED["C06"][3])
-CLAIMED["C19"] = ("Deductive proof of functional contracts of the pure helpers with loop invariants, pure callbacks as uninterpreted functions, ghost permutations and maps as (domain, value) functions: xslices All/Any/Chunk/Clear/Clone/Count(Func)/Equal(Func)/Fill/Filter(InPlace)/Grow/Index(Func)/Insert/Join/LastIndex(Func)/Map/Partition/Reduce/Remove/RemoveUnordered/Repeat/Reverse/Runs/Shrink/Unique(InPlace), xsort order algebra and Search, xmath Abs (per integer width, exact wrap)/Min/Max/Clamp, xmaps ToIndex/FromKeysAndValues/Set/SetFromSlice/Difference/Union/ReverseSingle.",
+CLAIMED["C19"] = ("Deductive proof of functional contracts of the pure helpers with loop invariants, pure callbacks as uninterpreted functions, ghost permutations and maps as (domain, value) functions: xslices All/Any/Chunk/Clear/Clone/Count(Func)/Equal(Func)/Fill/Filter(InPlace)/Grow/Index(Func)/Insert/Join/LastIndex(Func)/Map/Partition/Reduce/Remove/RemoveUnordered/Repeat/Reverse/Runs/Shrink/Unique(InPlace), xsort order algebra and Search, xmath Abs (per integer width, exact wrap)/Min/Max/Clamp, xmaps ToIndex/FromKeysAndValues/Set/SetFromSlice/Difference/Union/ReverseSingle, xrand rShuffle (permutation) and the samplers rSample/rSampleSlice/rSampleIterator/rSampleStream (no panic, documented result length, on a trusted contract of sampler.Next).",
          "Trusted: gvc, SMT solvers, assumed contracts of package slices/sort. Assumed: orders are strict weak orders, callbacks pure, NaN not modelled. Not under contract (listed in evidence): xslices Group/Compact*, xsort Merge/MergeSlices/MinK, xmaps Reverse/Intersection/Intersects, xerrors, xrand Sample*; uniformity of sampling is probabilistic and not decidable here.",
          "4.13", CLAIMED["C06"][3])
 CLAIMED["C20"] = ("Partial deductive proof: SleepContext's decision logic (nil at once iff d <= 0; DeadlineTooSoonError with the right fields iff a deadline closer than d, before any timer exists; otherwise nil only through the arm of a timer created with exactly d, ctx.Err() only through the Done arm); JitterTicker argument validation (panics iff d <= 0 or jitter >= d), no panic for 0 <= jitter < d, every scheduled delay within [d-jitter, d+jitter], Stop and Reset advance the generation that pending callbacks compare against.",
